@@ -141,9 +141,20 @@ def asap_then_positive(case, only_nested=True):
 
 def classify(case, obs, why):
     # D35: inside a DoDoer the asap branch uses the DoDoer's own tock (0) as base, so a nested doer that
-    # yields 0/None and later t > 0 is due one root tock earlier than when listed directly in the Doist
+    # yields 0/None and later t > 0 is due one root tock earlier than when listed directly in the Doist.
+    # Accepted as that finding only if the run is EXACTLY what D35 predicts: the documented model with
+    # asap base `tyme + 0` for doers nested in tock-0 DoDoers.
     if why.startswith("nested:") and asap_then_positive(case):
-        return "D35"
+        flat = flatten(case)
+        if flat is None:
+            return None
+        par = sc.parents(case)
+        asap = {i: 0.0 for i in sc.leaf_ids(case) if par.get(i, 0) != 0}
+        exp, ftyme, done = sc.reference_flat(flat, asap_tock=asap)
+        leaves = set(sc.leaf_ids(case))
+        got = [(i, sc.fl(h)) for k, i, h in obs["trace"] if k == "Recur" and i in leaves]
+        if done is not None and got == exp and ftyme == sc.fl(obs["tyme"]):
+            return "D35"
     return None
 
 
